@@ -15,6 +15,7 @@ import SyslModel.Relmod.Proto
 import SyslModel.Eval.Proto
 import SyslModel.Compile.Proto
 import SyslModel.JsonClean.Proto
+import SyslModel.Export.Proto
 
 open Lean (Json)
 open SyslModel
@@ -30,6 +31,7 @@ def dispatch (op : String) (j : Json) : Option Json :=
   else if op.startsWith "eval." then Eval.handle op j
   else if op.startsWith "compile." then Compile.handle op j
   else if op.startsWith "jsonclean." then JsonClean.handle op j
+  else if op.startsWith "export." then Export.handle op j
   else none
 
 def handleLine (line : String) : String :=
